@@ -151,6 +151,9 @@ class TaskScheduler(object):
         for entry in reversed(abandoned):
             if isinstance(entry, AsyncTask) and not entry.is_computed():
                 task = entry
+                # its dependencies leave the stack with it: if the task is awaited again
+                # later, they have to be scheduled again
+                task._dependencies_scheduled = False
                 if not task.running:
                     task._pause_contexts()
 
